@@ -491,6 +491,13 @@ pub struct Scenario {
     /// (C10: "repeated calls give identical results")
     #[serde(default)]
     pub repeat_check: bool,
+    /// compute the one-shot reference in a fresh process instead of this one,
+    /// so that state which lives as long as the process (a static cache, an
+    /// interning pool) and was left behind by earlier renderings - of this
+    /// run or of earlier runs of the same worker - cannot make the reference
+    /// wrong in the same way as the result it is compared with
+    #[serde(default)]
+    pub fresh_reference: bool,
 }
 
 impl Scenario {
